@@ -154,6 +154,10 @@ def class_table():
         except Exception:
             uid = None
         rows.append({"idx": i, "name": n, "kind": class_kind(c), "uid": uid})
+    index = {n: i for i, n in enumerate(names)}
+    for r in rows:
+        # every class of the table the class is an instance of (itself first): `isinstance` as a table
+        r["mro"] = [index[k.__module__ + "." + k.__qualname__] for k in classes[r["name"]].__mro__ if (k.__module__ + "." + k.__qualname__) in index]
     return rows, classes
 
 
@@ -410,6 +414,26 @@ def emit_classes(rows):
     return "\n".join(L) + "\n"
 
 
+def emit_class_uids(rows):
+    """what token_map.py and the extract helpers read of a class: its docstring `unique_id` and its ancestors"""
+    L = []
+    L.append("/- GENERATED by harness/gen_tables.py from vsg.parser / vsg.token.* of /repo — do not edit -/")
+    L.append("namespace Vsgm.Gen")
+    items = ["none" if r["uid"] is None else "some (%s, %s)" % (lean_str(r["uid"][0]), lean_str(r["uid"][1])) for r in rows]
+    names = []
+    for i in range(0, max(len(items), 1), 64):
+        nm = "classUids_%d" % (i // 64)
+        names.append(nm)
+        L.append("def %s : List (Option (String × String)) := %s" % (nm, lean_list(items[i : i + 64])))
+    L.append("/-- `unique_id = base : sub` of the class docstring, per class index -/")
+    L.append("def classUidList : List (Option (String × String)) := " + " ++ ".join(names))
+    L.append("def classUids : Array (Option (String × String)) := classUidList.toArray")
+    L.append("/-- class indices each class is an instance of (its MRO restricted to the table), per class index -/")
+    L.append("def classAncestors : Array (List Nat) := #[" + ", ".join(lean_list([str(x) for x in r["mro"]]) for r in rows) + "]")
+    L.append("end Vsgm.Gen")
+    return "\n".join(L) + "\n"
+
+
 def ranges(xs):
     out = []
     for x in xs:
@@ -468,6 +492,8 @@ def generate(verbose=False):
         changed.append("Rules.lean")
     if write_if_changed(os.path.join(GEN, "Classes.lean"), emit_classes(crow)):
         changed.append("Classes.lean")
+    if write_if_changed(os.path.join(GEN, "ClassUids.lean"), emit_class_uids(crow)):
+        changed.append("ClassUids.lean")
     if write_if_changed(os.path.join(GEN, "CharTables.lean"), emit_chars(ct, sym)):
         changed.append("CharTables.lean")
     tables = {"rules": rrows, "classes": crow, "chars": {k: (v if k not in ("lowerPairs", "upperPairs") else v) for k, v in ct.items()}, "symbols": sym}
